@@ -106,6 +106,15 @@ def replay(mod, path):
     with open(path) as f:
         rp = json.load(f)
     core.SEED = int(rp.get('seed', 0))
+    if rp['sig'].startswith('crash/worker-process-died'):
+        repo = os.environ.get('VERIF_REPO') or '/repo'
+        status, _ = core.isolated_calls(mod.__name__, core.SEED, repo, rp['fn'], rp['case'], 1)
+        print('replay %s: the process running the case %s' % (path, 'died' if status == 'died' else 'survived'))
+        if status == 'died':
+            print('VIOLATION property=%s replay=%s' % (mod.ID, path))
+            return 1
+        print('recorded violation %r does not reproduce on this tree' % rp['sig'])
+        return 0
     r = core.call_case(mod, rp['fn'], rp['case'])
     sigs = [v['sig'] for v in r.violations]
     print('replay %s: %d oracle comparisons, violations: %s' % (path, r.checks, sigs))
@@ -135,12 +144,19 @@ def finish(ctx, mod, write_evidence=True):
         # process-wide state (a shared default, a class-level cache) changes what a second execution in the
         # same process sees, so a case that does not reproduce here is replayed twice more, each time in a
         # fresh interpreter, before it is called nondeterministic.
-        ok = True
-        for _ in range(2):
-            r = core.call_case(mod, e['fn'], e['case'])
-            if sig not in [v['sig'] for v in r.violations]:
-                ok = False
-        if not ok:
+        # (in a worker process of its own, never in this reporting process: the case may crash compiled code)
+        status, calls = core.isolated_calls(mod.__name__, ctx.seed, ctx.repo, e['fn'], e['case'], 2)
+        if sig.startswith('crash/worker-process-died'):
+            ok = status == 'died'
+            if not ok:
+                status2, _ = core.isolated_calls(mod.__name__, ctx.seed, ctx.repo, e['fn'], e['case'], 2)
+                ok = status2 == 'died'
+            if ok:
+                e['detail'] = dict(e['detail'], replay_note='the worker process running this case dies (twice)')
+                calls = None
+        else:
+            ok = status == 'ok' and all(sig in c_ for c_ in calls)
+        if not ok and not sig.startswith('crash/'):
             ok = replay_in_fresh_process(prop, e, ctx.seed, ctx.repo) and \
                 replay_in_fresh_process(prop, e, ctx.seed, ctx.repo)
             if ok:
